@@ -137,6 +137,39 @@ var boundaryScalars = func() []*big.Int {
 		new(big.Int).Lsh(big.NewInt(1), 64), new(big.Int).Sub(new(big.Int).Lsh(big.NewInt(1), 64), big.NewInt(1))}
 }()
 
+// scalars on which a double-and-add / windowed / mixed-addition ladder meets its special cases although the scalar
+// is NOT one of {0, 1, r-1, r, r+1, 2^256-1}: unreduced scalars m·r + j (m = 1..6, j = -3..12) — the prefix (m·r+1)/2
+// doubles to P itself, so the next set bit adds P to P (seed C10f-1: [r+2]P came out as the identity) —, such
+// prefixes followed by further bits, and the same pattern around 2^k·r.
+var ladderScalars = func() []*big.Int {
+	r := refOrder
+	var out []*big.Int
+	for m := int64(1); m <= 6; m++ {
+		mr := new(big.Int).Mul(r, big.NewInt(m))
+		for j := int64(-3); j <= 12; j++ {
+			out = append(out, new(big.Int).Add(mr, big.NewInt(j)))
+		}
+	}
+	for _, m := range []int64{1, 3, 5} {
+		pre := new(big.Int).Add(new(big.Int).Mul(r, big.NewInt(m)), big.NewInt(2)) // bits of (m·r+1)/2 followed by 1
+		for _, s := range []uint{1, 2, 7, 64} {
+			lo := new(big.Int).Lsh(pre, s)
+			out = append(out, lo, new(big.Int).Add(lo, new(big.Int).Sub(new(big.Int).Lsh(big.NewInt(1), s), big.NewInt(1))))
+		}
+	}
+	return out
+}()
+
+func randLadderScalar(rng *h.Rng) *big.Int {
+	k := new(big.Int).Set(ladderScalars[rng.Intn(len(ladderScalars))])
+	if rng.Intn(3) == 0 { // a prefix of this shape followed by random bits
+		s := uint(1 + rng.Intn(40))
+		k.Lsh(k, s)
+		k.Add(k, rng.Big(new(big.Int).Lsh(big.NewInt(1), s)))
+	}
+	return k
+}
+
 func randScalar(rng *h.Rng) *big.Int {
 	switch rng.Intn(4) {
 	case 0:
@@ -394,6 +427,17 @@ func gen(tier string, rng *h.Rng, emit func(string)) {
 	for i := 0; i < 50*scale; i++ {
 		emit(fmt.Sprintf("g1 mul %s %s", hexG1(repG1(rng, pts1(), rng.Bool())), randScalar(rng)))
 	}
+	// unreduced scalars m·r + j: k·P must be (k mod r)·P (math/big, bn256/google, precompile 0x07 when k < 2^256)
+	for i, k := range ladderScalars {
+		P := G
+		if i%2 == 1 {
+			P = pts1()
+		}
+		emit(fmt.Sprintf("g1 mul %s %s", hexG1(repG1(rng, P, i%4 >= 2)), k))
+	}
+	for i := 0; i < 12*scale; i++ {
+		emit(fmt.Sprintf("g1 mul %s %s", hexG1(repG1(rng, pts1(), rng.Bool())), randLadderScalar(rng)))
+	}
 	for i := 0; i < 30*scale; i++ {
 		P := pts1()
 		a := repG1(rng, P, i%3 != 0)
@@ -453,6 +497,11 @@ func gen(tier string, rng *h.Rng, emit func(string)) {
 	}
 	for i := 0; i < 12*scale; i++ {
 		emit(fmt.Sprintf("g2 mul %s %s", hexG2(repG2(rng, pts2(), rng.Bool())), randScalar(rng)))
+	}
+	for i, k := range ladderScalars {
+		if i%4 == 0 || tier == "thorough" {
+			emit(fmt.Sprintf("g2 mul %s %s", hexG2(repG2(rng, pts2(), i%8 == 0)), k))
+		}
 	}
 	for i := 0; i < 8*scale; i++ {
 		a := repG2(rng, pts2(), i%2 == 0)
@@ -612,6 +661,19 @@ func gen(tier string, rng *h.Rng, emit func(string)) {
 	for i := 0; i < 10*scale; i++ {
 		emit("api " + randomAPI(rng))
 	}
+	// histories on returned objects (constructor-like call, in-place mutation of the result, the same calls again)
+	for _, p := range directedHistories() {
+		emit("api " + p)
+	}
+	for i := 0; i < 6*scale; i++ {
+		emit("api " + historyAPI(rng, "p"))
+		if i%2 == 0 {
+			emit("api " + historyAPI(rng, "q"))
+		}
+		if i%3 == 0 {
+			emit("api " + historyAPI(rng, "e"))
+		}
+	}
 }
 
 // sqrt in Fp2 for p ≡ 3 (mod 4) (Adj–Rodríguez-Henríquez); returns false when a is not a square
@@ -685,6 +747,82 @@ func directedAPI() []string {
 			"b3=chk:p1,q1,p2,q0,p0,qn;b4=chk:p1,q1,p0,qn,p2,q0;b5=chk:p0,qn,p1,q1,p2,q0;" +
 			"b6=chk:p1,q1,pn,q0;b7=chk:p1,q1,p0,qn;b8=chk:pn,q0,p1,q1;b9=chk:p1,q1,pn,qn,p0,q0",
 	}
+}
+
+// HISTORIES on returned objects (seed C10f-2: Mul(2^i, nil) handed out the entry of a shared table; the caller's next
+// in-place operation rewrote the table for the rest of the process). Shape: obtain a point from a constructor-like call
+// (Base, Null, Mul(k, nil) with k a power of two / small / full size, Clone, Set), mutate THAT object in place (Add to
+// itself, Neg, Mul, Null, Sub), then ask the library again for generator multiples, the generator and the identity. Every
+// register has a known discrete logarithm, so each value is compared with crypto/bn256/google.
+func historyAPI(rng *h.Rng, grp string) string {
+	var ops []string
+	n := 0
+	reg := func() string { n++; return fmt.Sprintf("%s%d", grp, n-1) }
+	pow2 := func() *big.Int { return new(big.Int).Lsh(big.NewInt(1), uint(rng.Intn(8))) }
+	ctor := func(dst string) {
+		switch rng.Intn(6) {
+		case 0:
+			ops = append(ops, dst+"=base")
+		case 1:
+			ops = append(ops, dst+"=null")
+		case 2:
+			ops = append(ops, fmt.Sprintf("%s=mulg:%s", dst, new(big.Int).Lsh(big.NewInt(1), uint(rng.Intn(254)))))
+		default:
+			ops = append(ops, fmt.Sprintf("%s=mulg:%s", dst, pow2()))
+		}
+	}
+	mutate := func(x string) {
+		switch rng.Intn(6) {
+		case 0:
+			ops = append(ops, fmt.Sprintf("%s=add:%s,%s", x, x, x))
+		case 1:
+			ops = append(ops, fmt.Sprintf("%s=neg:%s", x, x))
+		case 2:
+			ops = append(ops, fmt.Sprintf("%s=mul:%d,%s", x, 2+rng.Intn(9), x))
+		case 3:
+			ops = append(ops, x+"=null")
+		case 4:
+			ops = append(ops, fmt.Sprintf("%s=sub:%s,%s", x, x, x))
+		default:
+			ops = append(ops, x+"=base", fmt.Sprintf("%s=add:%s,%s", x, x, x))
+		}
+	}
+	for round := 0; round < 2+rng.Intn(2); round++ {
+		x := reg()
+		ctor(x)
+		if rng.Intn(3) == 0 { // through Clone / Set: the copy is mutated, the original must not move
+			y := reg()
+			if rng.Bool() && grp != "q" {
+				ops = append(ops, fmt.Sprintf("%s=clone:%s", y, x))
+			} else {
+				ops = append(ops, fmt.Sprintf("%s=set:%s", y, x))
+			}
+			mutate(y)
+		} else {
+			mutate(x)
+		}
+		// afterwards: small generator multiples (every low bit), a full-size one, the generator, the identity
+		for _, k := range []int64{1, 2, 3, 4, 7, int64(8 + rng.Intn(250))} {
+			ops = append(ops, fmt.Sprintf("%s=mulg:%d", reg(), k))
+		}
+		ops = append(ops, fmt.Sprintf("%s=mulg:%s", reg(), rng.Big(refOrder)))
+		ops = append(ops, reg()+"=base", reg()+"=null")
+	}
+	return strings.Join(ops, ";")
+}
+
+func directedHistories() []string {
+	var out []string
+	for _, g := range []string{"p", "q", "e"} {
+		r := func(i int) string { return fmt.Sprintf("%s%d", g, i) }
+		// seed C10f-2's history, for each group: Mul(1, nil) doubled in place, Mul(4, nil) negated in place
+		out = append(out, fmt.Sprintf("%s=mulg:1;%s=add:%s,%s;%s=mulg:4;%s=neg:%s;%s=mulg:1;%s=mulg:3;%s=mulg:4;%s=mulg:7;%s=mulg:5;%s=base;%s=null",
+			r(0), r(0), r(0), r(0), r(1), r(1), r(1), r(2), r(3), r(4), r(5), r(6), r(7), r(8)))
+		// Base() / Null() results mutated in place, then asked for again
+		out = append(out, fmt.Sprintf("%s=base;%s=add:%s,%s;%s=base;%s=mulg:1;%s=null;%s=base;%s=add:%s,%s;%s=null;%s=mulg:0;%s=mulg:2",
+			r(0), r(0), r(0), r(0), r(1), r(2), r(3), r(4), r(3), r(3), r(4), r(5), r(6), r(7)))
+	}
+	return out
 }
 
 func randomAPI(rng *h.Rng) string {
